@@ -92,7 +92,9 @@ def check(res):
         end = inv.calls[-1].end
         for d, subs in (end.d.get("subs") or {}).items():
             if "RE.monitor" in subs:
-                attempts = [e for e in per.get(d, []) if e.d["method"] == "clear_sub" and e.d.get("cb") == "RE.monitor"]
+                subscribed = [e.seq for e in per.get(d, []) if e.d["method"] == "subscribe" and e.d.get("cb") == "RE.monitor" and e.d.get("fault") != "raise"]
+                since = subscribed[-1] if subscribed else -1  # the subscription that is still there
+                attempts = [e for e in per.get(d, []) if e.d["method"] == "clear_sub" and e.d.get("cb") == "RE.monitor" and e.seq > since]
                 if d in refused or (len(attempts) >= 2 and all(e.d.get("fault") == "raise" for e in attempts)):
                     # the device refused every attempt (at least two: the engine retried) to remove the
                     # subscription: nothing more the engine can do; its callback ignores later updates (C01).
